@@ -850,6 +850,11 @@ func (g *genModel) listExpr(v ssa.Value) (*projection, error) {
 			}
 		}
 	}
+	// the list is a field of a struct of accumulators (ids.active, ids.deprecated): of a local struct, or of
+	// the struct a helper fills and returns
+	if cell, field, ok := g.accumulatorField(v, 0); ok {
+		return g.listFromFieldCell(cell, field)
+	}
 	phi, ok := v.(*ssa.Phi)
 	if !ok {
 		return nil, fmt.Errorf("%s: id list is not accumulated in a loop (%T)", g.p.pos(v.Pos()), v)
@@ -879,6 +884,12 @@ func (g *genModel) listExpr(v ssa.Value) (*projection, error) {
 	if step == nil {
 		return nil, fmt.Errorf("id list is never appended to")
 	}
+	return g.projectionFromStep(step, hdr)
+}
+
+// projectionFromStep: the projection described by a loop (header hdr) that appends one value per iteration
+// through the append call `step`.
+func (g *genModel) projectionFromStep(step *ssa.Call, hdr *ssa.BasicBlock) (*projection, error) {
 	// appended value: varargs slice holding exactly one string X
 	sl, ok := step.Call.Args[1].(*ssa.Slice)
 	if !ok {
@@ -972,6 +983,190 @@ func (g *genModel) listExpr(v ssa.Value) (*projection, error) {
 	}
 	pr.JSONFile = file
 	return pr, nil
+}
+
+// accumulatorField: v reads field #field of a struct of list accumulators; returns the local struct (in the
+// function that fills it) the field belongs to. Helper calls that return the struct are followed with
+// their parameters bound to the call's arguments (the bindings stay in place for the caller's use).
+func (g *genModel) accumulatorField(v ssa.Value, d int) (*ssa.Alloc, int, bool) {
+	v = g.deref(v)
+	var x ssa.Value
+	field := 0
+	switch t := v.(type) {
+	case *ssa.Field:
+		x, field = t.X, t.Field
+	case *ssa.UnOp:
+		fa, ok := t.X.(*ssa.FieldAddr)
+		if !ok || t.Op != token.MUL {
+			return nil, 0, false
+		}
+		x, field = fa.X, fa.Field
+	default:
+		return nil, 0, false
+	}
+	al := g.accumulatorStruct(x, d)
+	if al == nil {
+		return nil, 0, false
+	}
+	st, ok := al.Type().Underlying().(*types.Pointer).Elem().Underlying().(*types.Struct)
+	if !ok || field >= st.NumFields() {
+		return nil, 0, false
+	}
+	if sl, ok := st.Field(field).Type().Underlying().(*types.Slice); !ok || !isStringType(sl.Elem()) {
+		return nil, 0, false
+	}
+	return al, field, true
+}
+
+// accumulatorStruct: the local struct variable behind x (a struct value, a pointer to one, a by-value copy,
+// or the single result of a helper that returns its local struct).
+func (g *genModel) accumulatorStruct(x ssa.Value, d int) *ssa.Alloc {
+	if d > 8 {
+		return nil
+	}
+	x = g.deref(x)
+	switch t := x.(type) {
+	case *ssa.Alloc:
+		if _, ok := t.Type().Underlying().(*types.Pointer).Elem().Underlying().(*types.Struct); !ok {
+			return nil
+		}
+		// a by-value copy: stored whole exactly once and no field written
+		var whole ssa.Value
+		nWhole, nField := 0, 0
+		for _, r := range *t.Referrers() {
+			switch r := r.(type) {
+			case *ssa.Store:
+				if r.Addr == ssa.Value(t) {
+					whole = r.Val
+					nWhole++
+				}
+			case *ssa.FieldAddr:
+				for _, rr := range *r.Referrers() {
+					if st, ok := rr.(*ssa.Store); ok && st.Addr == ssa.Value(r) {
+						nField++
+					}
+				}
+			}
+		}
+		switch {
+		case nWhole == 1 && nField == 0:
+			return g.accumulatorStruct(whole, d+1)
+		case nWhole == 0:
+			return t
+		}
+		return nil
+	case *ssa.UnOp:
+		if t.Op == token.MUL {
+			return g.accumulatorStruct(t.X, d+1)
+		}
+	case *ssa.Call:
+		h := t.Call.StaticCallee()
+		if h == nil || !g.p.InModule(h) || len(h.Blocks) == 0 || h.Signature.Results().Len() != 1 {
+			return nil
+		}
+		var rets []ssa.Value
+		for _, b := range h.Blocks {
+			if ret, ok := b.Instrs[len(b.Instrs)-1].(*ssa.Return); ok && len(ret.Results) == 1 {
+				rets = append(rets, ret.Results[0])
+			}
+		}
+		if len(rets) != 1 {
+			return nil
+		}
+		if g.bind == nil {
+			g.bind = map[*ssa.Parameter]ssa.Value{}
+		}
+		for i, prm := range h.Params {
+			if i < len(t.Call.Args) {
+				if _, had := g.bind[prm]; !had {
+					g.bind[prm] = t.Call.Args[i]
+				}
+			}
+		}
+		return g.accumulatorStruct(rets[0], d+1)
+	}
+	return nil
+}
+
+// listFromFieldCell: field #field of the local struct `cell` starts empty (the struct is zeroed) and is only
+// ever updated by cell.f = append(cell.f, x), at one place, inside one loop.
+func (g *genModel) listFromFieldCell(cell *ssa.Alloc, field int) (*projection, error) {
+	var step *ssa.Call
+	var stepStore *ssa.Store
+	for _, r := range *cell.Referrers() {
+		switch r := r.(type) {
+		case *ssa.FieldAddr:
+			if r.Field != field {
+				continue
+			}
+			for _, rr := range *r.Referrers() {
+				switch x := rr.(type) {
+				case *ssa.Store:
+					if x.Addr != ssa.Value(r) {
+						return nil, fmt.Errorf("%s: the address of the accumulator field is stored", g.p.pos(x.Pos()))
+					}
+					if stepStore != nil {
+						return nil, fmt.Errorf("%s: the accumulator field is assigned at more than one place", g.p.pos(x.Pos()))
+					}
+					stepStore = x
+				case *ssa.UnOp, *ssa.DebugRef:
+				default:
+					return nil, fmt.Errorf("%s: the accumulator field is used by %T", g.p.pos(rr.Pos()), rr)
+				}
+			}
+		case *ssa.Store:
+			if r.Addr == ssa.Value(cell) {
+				return nil, fmt.Errorf("%s: the accumulator struct is assigned as a whole", g.p.pos(r.Pos()))
+			}
+		case *ssa.UnOp, *ssa.DebugRef:
+		default:
+			return nil, fmt.Errorf("%s: the accumulator struct is used by %T", g.p.pos(r.Pos()), r)
+		}
+	}
+	if stepStore == nil {
+		return nil, fmt.Errorf("%s: the accumulator field is never appended to", g.p.pos(cell.Pos()))
+	}
+	call, ok := stepStore.Val.(*ssa.Call)
+	if !ok {
+		return nil, fmt.Errorf("%s: the accumulator field is assigned something other than append(field, x)", g.p.pos(stepStore.Pos()))
+	}
+	if b, ok := call.Call.Value.(*ssa.Builtin); !ok || b.Name() != "append" || len(call.Call.Args) != 2 {
+		return nil, fmt.Errorf("%s: the accumulator field is assigned something other than append(field, x)", g.p.pos(stepStore.Pos()))
+	}
+	ld, ok := call.Call.Args[0].(*ssa.UnOp)
+	if !ok || ld.Op != token.MUL || ld.Block() != stepStore.Block() {
+		return nil, fmt.Errorf("%s: the accumulator field is assigned something other than append(field, x)", g.p.pos(stepStore.Pos()))
+	}
+	if fa, ok := ld.X.(*ssa.FieldAddr); !ok || fa.X != ssa.Value(cell) || fa.Field != field {
+		return nil, fmt.Errorf("%s: the accumulator field is assigned something other than append(field, x)", g.p.pos(stepStore.Pos()))
+	}
+	step = call
+	// the innermost loop around the append
+	var hdr *ssa.BasicBlock
+	for _, h := range step.Parent().Blocks {
+		if !h.Dominates(step.Block()) || h == step.Block() {
+			continue
+		}
+		in := false
+		for _, lb := range loopBody(h) {
+			if lb == step.Block() {
+				in = true
+			}
+		}
+		isHdr := false
+		for _, pr := range h.Preds {
+			if h.Dominates(pr) {
+				isHdr = true
+			}
+		}
+		if in && isHdr && (hdr == nil || hdr.Dominates(h)) {
+			hdr = h
+		}
+	}
+	if hdr == nil {
+		return nil, fmt.Errorf("%s: the accumulator field is not appended to in a loop", g.p.pos(step.Pos()))
+	}
+	return g.projectionFromStep(step, hdr)
 }
 
 func jsonName(f *types.Var) string {
@@ -1213,24 +1408,48 @@ func (g *genModel) docFromVal(v ssa.Value, d int) (*ssa.Alloc, error) {
 			if !ok || idx >= len(ret.Results) {
 				continue
 			}
-			// a return that carries a non-nil error is the failure path: what it returns besides is not used
-			failing := false
+			// a return that carries a non-nil error is the failure path: what it returns besides is not used.
+			// A return that hands on an error variable (return data, err) carries the document when err is nil:
+			// it counts when what it returns is a decoded document, and is a failure path otherwise.
+			errNil := true
 			for _, rv := range ret.Results {
 				if isErrorType(rv.Type()) {
 					if c, isC := rv.(*ssa.Const); !isC || !c.IsNil() {
-						failing = true
+						errNil = false
 					}
 				}
 			}
-			if failing {
-				continue
+			if !errNil {
+				if c, isC := ret.Results[idx].(*ssa.Const); isC && c.Value == nil {
+					continue // zero document beside the error
+				}
 			}
-			ld, ok := ret.Results[idx].(*ssa.UnOp)
-			if !ok || ld.Op != token.MUL {
+			var al *ssa.Alloc
+			var err error
+			switch rv := ret.Results[idx].(type) {
+			case *ssa.UnOp:
+				if rv.Op == token.MUL {
+					al, err = g.docFromPtr(rv.X, d+1)
+				} else {
+					err = fmt.Errorf("not a document")
+				}
+			case *ssa.Extract, *ssa.Call:
+				al, err = g.docFromVal(rv, d+1) // a loader that calls a more general loader
+			default:
+				err = fmt.Errorf("not a document")
+			}
+			if err == nil && !errNil {
+				if _, derr := g.decodedFrom(al); derr != nil {
+					continue // a zero value beside the error
+				}
+			}
+			if err != nil {
+				if !errNil {
+					continue
+				}
 				return nil, fmt.Errorf("%s: the loader does not return its decoded document", g.p.pos(ret.Pos()))
 			}
-			al, ok := ld.X.(*ssa.Alloc)
-			if !ok || (doc != nil && doc != al) {
+			if doc != nil && doc != al {
 				return nil, fmt.Errorf("%s: the loader does not return its decoded document", g.p.pos(ret.Pos()))
 			}
 			doc = al
@@ -1269,17 +1488,9 @@ func (g *genModel) decodedFrom(doc *ssa.Alloc) (string, error) {
 					if !ok {
 						return "", fmt.Errorf("decoder source is not a file")
 					}
-					ex, ok := mi.X.(*ssa.Extract)
-					if !ok || ex.Index != 0 {
-						return "", fmt.Errorf("decoder source is not the result of os.Open")
-					}
-					op, ok := ex.Tuple.(*ssa.Call)
-					if !ok || op.Call.StaticCallee() == nil || op.Call.StaticCallee().String() != "os.Open" {
-						return "", fmt.Errorf("decoder source is not the result of os.Open")
-					}
-					name, ok := constString(g.deref(op.Call.Args[0]))
-					if !ok {
-						return "", fmt.Errorf("os.Open with a non-constant name")
+					name, err := g.openedName(mi.X, 0)
+					if err != nil {
+						return "", err
 					}
 					if found {
 						return "", fmt.Errorf("document decoded twice")
@@ -1306,6 +1517,71 @@ func (g *genModel) decodedFrom(doc *ssa.Alloc) (string, error) {
 		return "", fmt.Errorf("document is never decoded")
 	}
 	return file, nil
+}
+
+// openedName: v is the file os.Open returned for a constant name — directly, as a bound parameter, or as
+// the result of an opening helper (whose failure paths are skipped).
+func (g *genModel) openedName(v ssa.Value, d int) (string, error) {
+	if d > 6 {
+		return "", fmt.Errorf("the opened file is handed on too many times to follow")
+	}
+	v = g.deref(v)
+	var call *ssa.Call
+	idx := 0
+	switch t := v.(type) {
+	case *ssa.Extract:
+		call, _ = t.Tuple.(*ssa.Call)
+		idx = t.Index
+	case *ssa.Call:
+		call = t
+	}
+	if call == nil || call.Call.StaticCallee() == nil {
+		return "", fmt.Errorf("decoder source is not the result of os.Open")
+	}
+	h := call.Call.StaticCallee()
+	if h.String() == "os.Open" {
+		if idx != 0 {
+			return "", fmt.Errorf("decoder source is not the result of os.Open")
+		}
+		name, ok := constString(g.deref(call.Call.Args[0]))
+		if !ok {
+			return "", fmt.Errorf("os.Open with a non-constant name")
+		}
+		return name, nil
+	}
+	if !g.p.InModule(h) || len(h.Blocks) == 0 {
+		return "", fmt.Errorf("decoder source is not the result of os.Open")
+	}
+	if g.bind == nil {
+		g.bind = map[*ssa.Parameter]ssa.Value{}
+	}
+	for i, prm := range h.Params {
+		if i < len(call.Call.Args) {
+			g.bind[prm] = call.Call.Args[i]
+		}
+	}
+	name, found := "", false
+	for _, b := range h.Blocks {
+		ret, ok := b.Instrs[len(b.Instrs)-1].(*ssa.Return)
+		if !ok || idx >= len(ret.Results) {
+			continue
+		}
+		if c, isC := ret.Results[idx].(*ssa.Const); isC && c.IsNil() {
+			continue // no file: the failure path
+		}
+		n, err := g.openedName(ret.Results[idx], d+1)
+		if err != nil {
+			return "", err
+		}
+		if found && n != name {
+			return "", fmt.Errorf("the opening helper returns files of different names")
+		}
+		name, found = n, true
+	}
+	if !found {
+		return "", fmt.Errorf("the opening helper returns no file")
+	}
+	return name, nil
 }
 
 // extractGenerator finds every file-writing call in package cmd and resolves its content template.
